@@ -1,5 +1,5 @@
 (* C10: case syntax, model observation, oracle on an observation.
-   case:  ttl <seconds> [tick <ns>] { T d i tag | B d i | D d i | A ns | F t | S c | E c }
+   case:  ttl <seconds> [tick <ns>] { T d i tag | B d i | D d i | A ns | F t | S c | E c | X c d i tag }
           (tick: how far the harness clock moves on every clock read made by the collector's own
            goroutine, i.e. between the two clock uses of addTemplate; default 0)
    observation, one group per action:
@@ -49,6 +49,15 @@ Fixpoint c10_parse_acts (l : list string) : option (list act) :=
       match parse_nat n, c10_parse_acts r with
       | Some n', Some a => Some (ACbEnd n' :: a)
       | _, _ => None
+      end
+  (* X c d i tag: a template refresh for (d, i) processed while callback c is past its clock read
+     and not yet done. The model's callback completion is one atomic step (everything after the
+     clock read is a single critical section of cp.mutex), so the refresh is linearised before
+     it: ATemplate; ACbEnd - two observation groups. *)
+  | "X" :: n :: d :: i :: g :: r =>
+      match parse_nat n, parse_N d, parse_N i, parse_N g, c10_parse_acts r with
+      | Some n', Some d', Some i', Some g', Some a => Some (ATemplate (d', i') g' :: ACbEnd n' :: a)
+      | _, _, _, _, _ => None
       end
   | _ => None
   end.
